@@ -449,6 +449,35 @@ def gen() -> None:
         raise px.Unsupported(f"MIMEAccept overrides {sorted(extra)}: not in the model")
     px.write_if_changed(os.path.join(COQ, "C17", "Gen.v"), "\n".join(out) + "\n")
 
+    # ---------------------------------------------------------------- statement skeletons (pins)
+    # everything the hand-written model stands for and that is not translated above, as normalised source text (layout,
+    # comments, docstrings do not matter); translated sub-expressions are holes.  Checked after Gen.v is written, so that a
+    # refusal here leaves the model up to date with the translated parts and the harness can still find a failing input.
+    sk = []
+    holes_bm = {ast.unparse(skip.test): "<SKIP-TEST>", ast.unparse(take.test): "<TAKE-TEST>"}
+    for cls, names in [(A, ["__init__", "__getitem__", "quality", "__contains__", "index", "find", "values", "to_header",
+                            "__str__", "_best_single_match", "best_match", "best"]),
+                       (L, ["best_match"])]:
+        sk.append(f"## class {cls.name}({', '.join(ast.unparse(b) for b in cls.bases)})")
+        for name in names:
+            sk.append(f"## {cls.name}.{name}\n" + px.skeleton(_method(cls, name), holes_bm if name == "best_match" else None))
+    for cls in (M, C):
+        sk.append(f"## class {cls.name}({', '.join(ast.unparse(b) for b in cls.bases)})")
+    for name in ("_normalize_mime", "_normalize_lang"):
+        sk.append(f"## {name}\n" + px.skeleton(px.find_def(acc, name)))
+    px.check_pin("C17", "c17_accept.txt", "\n".join(sk) + "\n",
+                 "statement skeleton of datastructures/accept.py (Accept accessors, sorting, selection loop, language fallbacks)")
+    sk = []
+    imp = [ast.unparse(n) for n in http.body if isinstance(n, ast.ImportFrom)
+           and any(a.name in ("parse_http_list", "unquote") for a in n.names)]
+    sk.append("## imports\n" + "\n".join(sorted(imp)))
+    for name in ("quote_header_value", "dump_options_header", "parse_list_header", "parse_options_header"):
+        sk.append(f"## {name}\n" + px.skeleton(px.find_def(http, name)))
+    sk.append("## parse_accept_header\n" + px.skeleton(pah[0], {ast.unparse(rng.test): "<RANGE-TEST>"}))
+    px.check_pin("C17", "c17_http.txt", "\n".join(sk) + "\n",
+                 "statement skeleton of the http.py functions behind parse_accept_header (list / options parsers, quoting, "
+                 "reconstruction)")
+
 
 # ====================================================================== harness (tie b)
 
@@ -1203,6 +1232,16 @@ def main(chk: Check) -> None:
         "codecs.lookup(name).name / LookupError enters the model as a table computed by the harness for the names of each case; "
         "its contract (hypotheses of C17_charset_contract: ASCII letter case ignored, canonical names lower-case fixpoints) is "
         "validated over the interpreter's encodings.aliases table on every run",
+        "statement pins tools/pins/c17_accept.txt (Accept.__init__, __getitem__, quality, __contains__, index, find, values, "
+        "to_header, __str__, _best_single_match, best_match with the two translated tests as holes, best, LanguageAccept.best_match, "
+        "class bases, _normalize_mime, _normalize_lang) and tools/pins/c17_http.txt (quote_header_value, dump_options_header, "
+        "parse_list_header, parse_options_header, parse_accept_header with the translated range test as a hole, the imports of "
+        "parse_http_list / unquote): the hand-written model was written against these texts",
+        "validated differentially only, no pin wanted (not werkzeug code or generic): urllib.request.parse_http_list, "
+        "urllib.parse.unquote, codecs.lookup, float() / repr(float), sorted(), list.__getitem__ / list.index / iteration of the "
+        "ImmutableList base class (CPython list), werkzeug.utils.cached_property and Headers.get behind Request.accept_* (generic "
+        "descriptor / container owned by C08-C16; exercised by the glue check), Accept.__repr__ and the tuple-key branch of index "
+        "(not part of the property)",
         "Request.accept_* glue: header name and class regenerated from sansio/request.py (C17_request_glue_pinned) and exercised "
         "on a third of the header cases through werkzeug.sansio.request.Request with decoy values in the other three headers",
         "hand-written matchers for urllib.request.parse_http_list, _parameter_key_re / _parameter_token_value_re / _continuation_re "
